@@ -21,6 +21,16 @@ BASE = ("qkeras from /repo working tree on tf_keras 2.21 (TF_USE_LEGACY_KERAS=1)
 TECH = "deterministic simulation with fault injection: "
 
 CHECKS = {
+    "C04": ("Q", "exploration",
+            "quantizer.scale is last-call state read later by other parties; seeded histories interleave callers sharing binary/ternary/stochastic_* objects with scale reads, phase flips, set_trainable, restarts and failed draws. After every call: y = exposed scale x sign/ternary code, zero<=>below threshold (a separating threshold per group for auto), scale >= 0, constant per configured group, equal to the per-group least-squares optimum, power of two within bounds and nearest exponent for auto_po2; a later read returns the last call's scale; repeating a call is bit-identical whatever happened in between. Sampling, not proof.",
+            BASE + "stochastic classes are judged in inference phase only (their training phase belongs to C08); channels_last; tolerance of one ulp of x for the straight-through expression.",
+            TECH + "seeded interleaving of callers/readers/restarts on shared quantizer objects; independent numpy reference for codes, groups and least-squares scale",
+            "4 C04"),
+    "C05": ("Q", "exploration",
+            "Same state as C04 for quantized_bits/quantized_linear with auto/auto_po2/frozen scales: after every call of a seeded history y/(scale x step) is an in-range integer, the scale is positive and one value per channel/group, 'auto' gives the channel maximum the top code unclipped, auto_po2 scales are powers of two inside the exponent bounds, outputs are finite (zero channels, 1e-6..1e6 magnitudes); SCALED pairs check q(2^k x) = 2^k q(x); FREEZE re-enacts the library's freeze pipeline and the frozen object must reproduce the live output on the source tensor after other calls and restarts; frozen scales never change. Sampling, not proof.",
+            BASE + "exponent bounds of quantized_bits are applied to exposed_scale / 2^(bits-keep_negative) (DESIGN 4/C05); channels at the epsilon floor are not judged for the maximum and scaling clauses.",
+            TECH + "seeded call/read/restart/freeze histories on shared quantizer objects, format-definition oracle, paired scaled calls",
+            "4 C05"),
     "C09": ("Q", "exploration",
             "Seeded search over restart histories: every constructor option of every registered quantizer is restarted through 6 routes (deterministic sweep) and random op histories (qnoise updates, variable build, set_trainable, phase flips, seam modes) are interleaved with restarts; after each restart every call must be bit-identical (output and exposed scale) to a never-restarted twin fed the same random draws. Sampling, not proof.",
             BASE + "the uniform seam feeds live object and twin identical draws; tf.function traces are not exercised for C09.",
